@@ -412,6 +412,80 @@ def splice_fn(repo, file, item_path, sections, trait=None, nth=0, opts=(), canar
             ed.ins_after(lclose, ' }')
             rules['X2c-for'] = rules.get('X2c-for', 0) + 1
             dropped.append('%s:%d `for %s in ..` written as `while let Some(%s) = it.next()` over `.into_iter()` (X2c)' % (file, toks[kw].line, pat, pat))
+    if 'split_or_guard_arms' in opts:
+        # X2e (match arms): `P1 | P2 if G => BODY` is written as `P1 if G => BODY, P2 if G => BODY` (Verus has no match arm with both
+        # an or-pattern and a guard); the guard and the body are repeated verbatim
+        bci = [k for k in range(body_open + 1, body_close) if toks[k].kind not in ('ws', 'comment', 'doc')]
+        done_until = -1
+        for q in range(1, len(bci) - 1):
+            k = bci[q]
+            if k <= done_until:
+                continue
+            if not (toks[k].text == '=' and toks[bci[q + 1]].text == '>' and toks[bci[q + 1]].pos == toks[k].pos + 1):
+                continue
+            if toks[bci[q - 1]].text in ('=', '<', '>', '!') and toks[bci[q - 1]].pos + 1 == toks[k].pos:
+                continue
+            # arm start: back to the previous `,` `{` or `}` at depth 0
+            depth, r = 0, q - 1
+            while r >= 0:
+                tr = toks[bci[r]]
+                if tr.kind == 'close':
+                    if depth == 0 and tr.text == '}':
+                        break
+                    depth += 1
+                elif tr.kind == 'open':
+                    if depth == 0:
+                        break
+                    depth -= 1
+                elif depth == 0 and tr.text == ',':
+                    break
+                r -= 1
+            start = r + 1
+            # top-level `if` and `|` inside the pattern region
+            depth, if_at, bars = 0, None, []
+            for r2 in range(start, q):
+                t2 = toks[bci[r2]]
+                if t2.kind == 'open':
+                    depth += 1
+                elif t2.kind == 'close':
+                    depth -= 1
+                elif depth == 0 and t2.kind == 'ident' and t2.text == 'if' and if_at is None:
+                    if_at = r2
+                elif depth == 0 and t2.text == '|' and if_at is None:
+                    bars.append(r2)
+            if if_at is None or not bars:
+                continue
+            # arm end
+            nb = q + 2
+            if toks[bci[nb]].kind == 'open' and toks[bci[nb]].text == '{':
+                endk = rs.match_close(toks, bci[nb])
+                e = [i for i, kk in enumerate(bci) if kk == endk][0]
+                if e + 1 < len(bci) and toks[bci[e + 1]].text == ',':
+                    e += 1
+            else:
+                depth, e = 0, nb
+                while e < len(bci):
+                    te = toks[bci[e]]
+                    if te.kind == 'open':
+                        depth += 1
+                    elif te.kind == 'close':
+                        if depth == 0:
+                            e -= 1
+                            break
+                        depth -= 1
+                    elif depth == 0 and te.text == ',':
+                        break
+                    e += 1
+            cuts = [start - 1] + bars + [if_at]
+            pats = [''.join(t.text for t in toks[bci[cuts[i] + 1 if i else start]:bci[cuts[i + 1]]]).strip() if i else ''.join(t.text for t in toks[bci[start]:bci[cuts[1]]]).strip() for i in range(len(cuts) - 1)]
+            guard = ''.join(t.text for t in toks[bci[if_at] + 1:k]).strip()
+            body_end_tok = bci[e]
+            body_txt = ''.join(t.text for t in toks[bci[q + 1] + 1:body_end_tok + 1]).strip().rstrip(',')
+            text = ' '.join('%s if %s => %s,' % (pt, guard, body_txt) for pt in pats)
+            ed.replace(bci[start], body_end_tok, text)
+            done_until = body_end_tok
+            rules['X2e-arm'] = rules.get('X2e-arm', 0) + 1
+            dropped.append('%s:%d match arm `%s | .. if ..` written as one guarded arm per alternative (X2e)' % (file, toks[bci[start]].line, pats[0]))
     # X2d: `//@desugar K` holds `RECV.method` (method one of map, and_then, filter) for an Option receiver and an inline closure:
     # every occurrence `RECV.method(|PAT| BODY)` is written as the match that std defines the combinator to be, so BODY is ordinary
     # code of the function.  The receiver text must occur (else the anchor is lost).
